@@ -173,6 +173,9 @@ def judge(ctx, T, r, m, d, actions, payloads, what, sig):
 
 def main(ctx):
     from harness.drivers import transport as T
+    if ctx.replay_path:
+        from checks import replay_mine
+        return replay_mine.c01(ctx, judge, macsize_of)
     from asyncssh.encryption import get_encryption_algs
     from asyncssh.mac import get_mac_algs
     quick = ctx.tier == 'quick'
